@@ -5,3 +5,10 @@ open Chess.Props.C11
 #print axioms rootMove_expired
 #print axioms rootLoop_expired
 #print axioms search_immediate
+#print axioms search_legal
+#print axioms search_legal_spec
+#print axioms search_none
+#print axioms search_none_spec
+#print axioms search_unfinished
+#print axioms search_some
+#print axioms search_some_spec
